@@ -25,7 +25,8 @@ USES_AIOCOAP_NET = False
 RULE = ("seeded histories of 3-25 operations (N protects requests singly or in bursts across the persistence "
         "chunk boundaries, N protects responses reusing the request nonce or with an own partial IV, P->N request "
         "delivery, replay of earlier P->N datagrams, Echo round trips with fresh and stale Echo values, P->N "
-        "responses, clean stop, op-level crash; random algorithm, ID lengths, window size, chunk sizes start 1-20 / "
+        "responses, clean stop, op-level crash, handover (the successor is constructed while the predecessor still "
+        "works and then stops cleanly); random algorithm, ID lengths, window size, chunk sizes start 1-20 / "
         "limit 1-200 or the shipped 10/10000, sequence.json absent, preset, 'unknown' or near 2^40-1) plus a fixed "
         "epilogue (protect, replay everything, protect); each history is executed crash-free and then once per crash "
         "plan: process death before file-system step i (quick: all steps of the first and last _store plus a seeded "
@@ -49,7 +50,7 @@ ASSUMPTIONS = ["crash = process death between two file-system calls: completed c
 EXPECTED_PROBES = ["crash_in_mkstemp", "crash_in_flush", "crash_in_fsync", "crash_in_replace", "crash_in_load",
                    "crash_in_destroy", "torn_flush", "double_crash", "echo_recovered", "echo_demanded", "exhausted",
                    "clean_stop", "replay_rejected_after_clean_stop", "replay_rejected_after_crash",
-                   "response_nonce_reused_once", "io_error_fired", "chunk_boundary_crossed", "stale_echo_rejected"]
+                   "response_nonce_reused_once", "io_error_fired", "chunk_boundary_crossed", "stale_echo_rejected", "handover"]
 
 MAX_SEQNO = 2 ** 40 - 1
 BASEDIR = "/ctx"
@@ -96,7 +97,7 @@ def gen_ops(r, n):
     ops = []
     for _ in range(n):
         k = r.weighted([(28, "nreq"), (9, "burst"), (22, "req"), (12, "replay"), (10, "resp"), (5, "presp"),
-                        (7, "stop"), (5, "crash"), (2, "replayall")])
+                        (7, "stop"), (5, "crash"), (2, "replayall"), (4, "handover")])
         if k == "burst":
             ops.append(["burst", r.choice([2, 3, 3, 5, 5, 9, 10, 11, 12, 19, 21, 30, 31, 45, 71])])
         elif k == "req":
@@ -107,6 +108,10 @@ def gen_ops(r, n):
             ops.append(["resp", r.randint(0, 5)])
         elif k == "presp":
             ops.append(["presp", r.chance(0.6)])
+        elif k == "handover":
+            # the successor process is started while the old one still runs: the old one uses the context a few
+            # more times (possibly across a persistence chunk boundary) and then stops cleanly
+            ops.append(["handover", r.choice([0, 1, 2, 3, 5, 11, 12, 25]), r.choice([0, 0, 1, 2])])
         else:
             ops.append([k])
     return ops
@@ -410,6 +415,92 @@ class Run:
         self.fs.restart()
         self.load()
 
+    def handover(self, n_protect, n_receive):
+        """Successor B is constructed while predecessor A is alive.  Whenever B finds the lock taken, A goes on:
+        it protects n_protect requests, accepts n_receive requests of the peer and stops cleanly (releasing the
+        lock), all of that before B's wait for the lock is over.  A crash in here takes both down."""
+        osc = self.osc
+        c = self.scn["ctx"]
+        A = self.N
+        state = {"ran": False, "stopped": False}
+
+        def predecessor_goes_on():
+            state["ran"] = True
+            for _ in range(n_protect):
+                self.op_nreq()
+            for _ in range(n_receive):
+                self.op_req("plain")
+            self.window_initialized_at_stop = A.recipient_replay_window.is_initialized()
+            self.in_destroy = True
+            A._destroy()
+            self.in_destroy = False
+            state["stopped"] = True
+            self.log.append(("stop", self.inc, "handover"))
+
+        self.fs.on_lock_contention = predecessor_goes_on
+        cls = osc.FilesystemSecurityContext
+        B = cls.__new__(cls)
+        self.objs.append(B)
+        self.probe("handover")
+        try:
+            try:
+                if c.get("chunk_start") is None:
+                    B.__init__(BASEDIR)
+                else:
+                    B.__init__(BASEDIR, sequence_number_chunksize_start=c["chunk_start"],
+                               sequence_number_chunksize_limit=c["chunk_limit"])
+            finally:
+                self.fs.on_lock_contention = None
+        except self.F.Crash:
+            self.discard(B)
+            raise  # -> after_crash: both processes are gone
+        except self.F.SeamMissing:
+            raise
+        except Exception as e:
+            # the successor could not start (lock not released in time, I/O error ...): it gives up, A stays
+            self.anomaly("handover-failed", "%s: %s" % (type(e).__name__, e))
+            self.log.append(("handover-failed", type(e).__name__))
+            try:
+                if getattr(B, "lockfile", None) is not None and B is not A:
+                    B.lockfile = None
+            except Exception:
+                pass
+            self.in_destroy = False
+            if state["stopped"]:
+                # A is gone as well: start afresh
+                self.discard(A)
+                self.N = None
+                self.boundaries.append("clean")
+                self.inc += 1
+                self.fs.restart()
+                self.load()
+            elif state["ran"]:
+                # A's own stop failed half way (I/O error): its process ends anyway, uncleanly
+                self.probe("clean_stop_failed")
+                self.fs.die()
+                self.discard(A)
+                self.N = None
+                self.boundaries.append("crash")
+                self.inc += 1
+                self.fs.restart()
+                self.load()
+            return
+        if not state["stopped"]:
+            # B got the lock without A having let go of it: two live instances on one directory
+            self.violations.append(("C13/two-instances-hold-the-context", {"op_index": self.opidx}))
+            self.discard(B)
+            return
+        self.stats["clean_stop"] += 1
+        self.probe("clean_stop")
+        self.discard(A)
+        self.boundaries.append("clean")
+        self.inc += 1
+        self.N = B
+        self.last_own = None
+        self.accepted_inc = []
+        self.n_last = None
+        self.log.append(("load", self.inc, B.sender_sequence_number, B.recipient_replay_window.is_initialized()))
+
     # ---- wire helpers ------------------------------------------------------------------
     def wire(self, msg):
         self.mid = (self.mid + 1) & 0xFFFF
@@ -654,6 +745,8 @@ class Run:
             self.op_presp(bool(op[1]))
         elif k == "stop":
             self.clean_stop()
+        elif k == "handover":
+            self.handover(int(op[1]), int(op[2]) if len(op) > 2 else 0)
         elif k == "crash":
             self.stats["op_crash"] += 1
             self.fs.die()
